@@ -1820,3 +1820,76 @@ func ruleBetweenOrder(p *Prog, r *Result) {
 	}
 	r.floor("evaluators of BETWEEN", n, 2)
 }
+
+// ---------------- INITRESET ----------------
+
+func init() {
+	register("INITRESET", "Init rewinds a plan: every field of a plan that its Next / Batch (or the methods they call on the same plan) write - positions, counters, finished flags, prepared flags, buffers - is also written by its Init (directly or through methods of the same plan), so a plan that is initialised again runs again, whatever access path was chosen for it", ruleInitReset)
+}
+
+func ruleInitReset(p *Prog, r *Result) {
+	plans, finals, err := p.planTypes()
+	if err != nil {
+		r.undecided("%v", err)
+		return
+	}
+	n := 0
+	for _, t := range append(append([]*types.Named{}, plans...), finals...) {
+		tname := t.Obj().Name()
+		own := func(f *ssa.Function) bool {
+			return f.Signature.Recv() != nil && typeName(deref(f.Signature.Recv().Type())) == tname
+		}
+		written := func(root *ssa.Function) map[string]string {
+			out := map[string]string{}
+			if root == nil {
+				return out
+			}
+			for _, f := range p.staticClosure(root, 3, func(g *ssa.Function) bool { return !own(g) }) {
+				if !own(f) {
+					continue
+				}
+				allInstrs(f, func(in ssa.Instruction) {
+					st, ok := in.(*ssa.Store)
+					if !ok {
+						return
+					}
+					o, fl, base, ok := fieldOfAddr(st.Addr)
+					if !ok || o == nil || o.Obj().Name() != tname {
+						return
+					}
+					if _, fresh := base.(*ssa.Alloc); fresh {
+						return
+					}
+					if _, seen := out[fl]; !seen {
+						out[fl] = p.InstrPos(st)
+					}
+				})
+			}
+			return out
+		}
+		initFn := p.Method(t, "Init")
+		if initFn == nil {
+			continue
+		}
+		reset := written(initFn)
+		adv := map[string]string{}
+		for _, nm := range []string{"Next", "Batch"} {
+			for k, v := range written(p.Method(t, nm)) {
+				if _, ok := adv[k]; !ok {
+					adv[k] = v
+				}
+			}
+		}
+		var advNames []string
+		for k := range adv {
+			advNames = append(advNames, k)
+		}
+		sort.Strings(advNames)
+		for _, fl := range advNames {
+			n++
+			_, ok := reset[fl]
+			r.add(ok, tname+"."+fl, adv[fl], fmt.Sprintf("field %s is written while the plan runs (first at %s); Init must write it too", fl, adv[fl]))
+		}
+	}
+	r.floor("plan fields written by Next/Batch", n, 15)
+}
